@@ -17,7 +17,7 @@ import ast
 from typing import Any, Dict, List, Optional, Set, Tuple
 
 from ..cfg import cfg_of, ExcTypes
-from ..flow import Sym, fpaths, enclosing_handlers, attr_effects
+from ..flow import Sym, fpaths, enclosing_handlers, attr_effects, allfacts
 from ..model import ClassInfo, FuncInfo, Program, attr_chain, norm, walk_no_nested, AnalysisError
 from ..report import Checker
 from .common import (hierarchy_functions, self_calls, implementations, is_awaited, contained_locally,
@@ -28,10 +28,8 @@ SELECTOR_RAISES = (KeyError, ValueError, OSError)   # documented failure modes o
 
 
 def _loop_of(fn: FuncInfo) -> Optional[ast.While]:
-    for n in walk_no_nested(fn.node):
-        if isinstance(n, ast.While) and isinstance(n.test, ast.Constant) and n.test.value is True:
-            return n
-    return None
+    from .common import loop_containing_call
+    return loop_containing_call(fn, 'self._run_once')
 
 
 def _inside(node: ast.AST, container: ast.AST) -> bool:
@@ -51,9 +49,10 @@ def _work_receiver(fn: FuncInfo, recv: ast.AST, table: str = 'self.works') -> bo
                 # the executor's own factory of work objects
                 if isinstance(v, ast.Call) and attr_chain(v.func) == 'self.create':
                     return True
-            if isinstance(n, (ast.For, ast.AsyncFor)) and isinstance(n.target, ast.Name) and n.target.id == recv.id:
-                it = n.iter
-                if isinstance(it, ast.Call) and isinstance(it.func, ast.Attribute) and it.func.attr == 'values' and attr_chain(it.func.value) == table:
+            if isinstance(n, (ast.For, ast.AsyncFor, ast.comprehension)):
+                from .common import dict_iter
+                di = dict_iter(n.target, n.iter, table)
+                if di is not None and di.get('value') == recv.id:
                     return True
     return False
 
@@ -92,7 +91,7 @@ def run(ch: Checker) -> None:
     run_forever = prog.own_method('Threadless', '_run_forever')
     loop = _loop_of(run_forever)
     if loop is None:
-        raise AnalysisError('anchor: no `while True` loop in Threadless._run_forever')
+        raise AnalysisError('anchor: no loop around self._run_once() in Threadless._run_forever')
     exc = ExcTypes(prog, thr.module)
 
     # lifecycle methods = methods of Work overridden somewhere below it and called from the executor hierarchy
@@ -283,7 +282,7 @@ def _known_id(p: Any, sym: Sym, idx: int, arg: ast.AST) -> Tuple[bool, str, List
     if inserted:
         return True, 'inserted into self.works on this path before the call', []
     # membership fact
-    if ('%s in self.works' % raw, True) in p.facts(idx):
+    if ('%s in self.works' % raw, True) in list(allfacts(p, idx).items()):
         return True, 'membership test', []
     return False, 'argument %s' % txt[:60], p.describe()
 
@@ -305,7 +304,9 @@ def _list_filled_from_works(fn: FuncInfo, lname: str) -> bool:
         if isinstance(loop, (ast.For, ast.AsyncFor)):
             for n in walk_no_nested(loop):
                 if isinstance(n, ast.Call) and isinstance(n.func, ast.Attribute) and n.func.attr == 'append' and norm(n.func.value) == lname:
-                    if attr_chain(loop.iter) == 'self.works' and n.args and norm(n.args[0]) == norm(loop.target):
+                    from .common import dict_iter
+                    di = dict_iter(loop.target, loop.iter, 'self.works')
+                    if di is not None and di.get('key') is not None and n.args and norm(n.args[0]) == di['key']:
                         appends += 1
                     else:
                         return False
@@ -344,7 +345,7 @@ def _wire_ints(ch: Checker, prog: Program) -> None:
                         pos = [i for i, s in p.stmts() if s is st]
                         if not pos or p.exit_kind != 'return':
                             continue
-                        facts = [(a, b) for (a, b) in p.facts() if a.replace(' ', '') in ('%s<0' % tname, '%s>=0' % tname, '0<=%s' % tname, '0>%s' % tname)]
+                        facts = [(a, b) for (a, b) in list(allfacts(p).items()) if a.replace(' ', '') in ('%s<0' % tname, '%s>=0' % tname, '0<=%s' % tname, '0>%s' % tname)]
                         if not facts:
                             ok = False
                             wit = p.describe()
